@@ -538,7 +538,6 @@ def real_cache_reprepare(kind, v):
                 ann = _at(body, ("metadata", "annotations", "koreo.dev/last-applied-configuration"))
                 if ann[0] == "ok":
                     out.append(("last-applied annotation spec.v", _at(json.loads(ann[1]), ("spec", "v"))))
-                await drivers.reconcile_rf(f, {}, cl)      # object exists and matches now: `return` is evaluated
                 return out
             res = await reconcile_workflow(api=drivers.Cluster(), workflow_key=name, owner=owner,
                                            trigger=celpy.json_to_cel({}), workflow=f)
@@ -1115,13 +1114,13 @@ def strips_directives(route):
 
 
 def routes_for(k):
-    """all base routes, two of the other extra routes and three of the 32 overlay-chain routes in rotation
+    """all base routes, two of the other extra routes and two of the 32 overlay-chain routes in rotation
     (the corpus gets every route)"""
     if not EXTRA_ROUTES:
         return BASE_ROUTES
     n, m = len(OTHER_ROUTES), len(CHAIN_ROUTES)
     return (BASE_ROUTES + tuple(OTHER_ROUTES[(2 * k + j) % n] for j in (0, 1))
-            + tuple(CHAIN_ROUTES[(3 * k + j * 11) % m] for j in (0, 1, 2)))
+            + tuple(CHAIN_ROUTES[(2 * k + j * 11) % m] for j in (0, 1)))
 
 
 ALREADY_SHRUNK: set = set()
